@@ -409,3 +409,8 @@ def _polarization(ct, tier, seed):
 contract('C19.runtime.polarization', ['optiland/rays/polarization_state.py:PolarizationState.__init__', 'optiland/rays/polarization_state.py:PolarizationState.to_dict',
                                       'optiland/rays/polarization_state.py:PolarizationState.from_dict', OP + ':Optic.to_dict', OP + ':Optic.from_dict'],
          ['C19'], custom=_polarization)(lambda c: None)
+
+
+# concrete inputs found by the defect-hunting sub-agents (bounded replay, see contracts/hunt.py)
+from . import hunt as _hunt  # noqa: E402
+_hunt.register('C19')
